@@ -394,6 +394,13 @@ func runC09(p *Program, r *Report) {
 			lockedWriter := held[fs.fn] || lockHeldAt(pv, fs.fn, fs.st)
 			dt, has := delegationLocked["DefinedTemplates"]
 			ok := lockedWriter && (!has || dt)
+			if ok && !isNilConst(fs.st.Val) {
+				// emptying the tree of a template whose analysis failed is the one tolerated write; any other value
+				// replaces the tree of a template that other goroutines may be executing (text/template reads it
+				// without our lock while it walks a {{template}} call)
+				r.Viol("C09.R2", c+":non-nil", pos, "the parse tree of a published text template is assigned (not emptied) during a first execution: goroutines executing a template that calls this one read that field without the name-space lock", "")
+				continue
+			}
 			r.Check(ok, "C09.R2", c, pos, "written under nameSpace.mu, and the API method that lets text/template read every member's tree (DefinedTemplates) takes the same lock",
 				"a published template's parse tree is overwritten while DefinedTemplates lets text/template read it without the name-space lock (data race)")
 		default:
